@@ -53,6 +53,8 @@ let encode (l : int list) : string =
   Buffer.contents b
 
 let to_str (field : string) : M.n list = List.map n_of_int (decode (unhex field))
+(* paths may be arbitrary bytes; the model works on code points, so non-UTF-8 paths are outside it *)
+let to_str_lossy (field : string) : M.n list = to_str field
 let of_str (s : M.n list) : string = hex (encode (List.map int_of_n s))
 let bare (field : string) : string = unhex field     (* small ASCII selector fields *)
 
@@ -86,8 +88,64 @@ let rec unit_ops (u : (M.n list * (M.n list * M.n list) list) list) (errs : int)
      | "merge", t :: r -> (match parse_text t with Some o -> unit_ops (M.merge_from u o) errs r | None -> unit_ops u (errs + 1) r)
      | _ -> failwith "bad unit op")
 
+let berr_class (e : M.berr) : string = match e with
+  | M.EImageNotFound _ -> "ImageNotFound" | M.EInternal -> "InternalQuadletError" | M.EInvalidDeviceOptions -> "InvalidDeviceOptions"
+  | M.EInvalidDeviceType -> "InvalidDeviceType" | M.EInvalidGroup -> "InvalidGroup" | M.EInvalidImageOrRootfs -> "InvalidImageOrRootfs"
+  | M.EInvalidKillMode _ -> "InvalidKillMode" | M.EInvalidMountCsv -> "InvalidMountCsv" | M.EInvalidMountFormat _ -> "InvalidMountFormat"
+  | M.EInvalidMountSource -> "InvalidMountSource" | M.EInvalidNetworkOptions -> "InvalidNetworkOptions" | M.EInvalidPod _ -> "InvalidPod"
+  | M.EInvalidPortFormat _ -> "InvalidPortFormat" | M.EInvalidRelativeFile -> "InvalidRelativeFile" | M.EInvalidRemapUsers -> "InvalidRemapUsers"
+  | M.EInvalidResourceNameIn _ -> "InvalidResourceNameIn" | M.EInvalidServiceType _ -> "InvalidServiceType"
+  | M.EInvalidSetWorkingDirectory -> "InvalidSetWorkingDirectory" | M.EInvalidSubnet -> "InvalidSubnet"
+  | M.ENoImageTagKeySpecified -> "NoImageTagKeySpecified" | M.ENoFileKeySpecified -> "NoFileKeySpecified"
+  | M.ENoSetWorkingDirectoryNorFileKeySpecified -> "NoSetWorkingDirectoryNorFileKeySpecified" | M.ENoYamlKeySpecified -> "NoYamlKeySpecified"
+  | M.EParsing -> "Parsing" | M.EPodNotFound _ -> "PodNotFound" | M.ESourceNotFound _ -> "SourceNotFound"
+  | M.EUnsupportedValueForKey (_, _) -> "UnsupportedValueForKey"
+let err_class (e : M.cerr) : string = match e with M.EUnknownKey _ -> "UnknownKey" | M.EB b -> berr_class b
+
+let berr_detail (e : M.berr) : string = match e with
+  | M.EImageNotFound s | M.EInvalidKillMode s | M.EInvalidMountFormat s | M.EInvalidPod s | M.EInvalidPortFormat s
+  | M.EInvalidResourceNameIn s | M.EInvalidServiceType s | M.EPodNotFound s | M.ESourceNotFound s -> of_str s
+  | M.EUnsupportedValueForKey (_, v) -> of_str v
+  | _ -> "-"
+let err_detail (e : M.cerr) : string = match e with M.EUnknownKey s -> of_str s | M.EB b -> berr_detail b
+
+let exists_path (p : M.n list) : bool = Sys.file_exists (encode (List.map int_of_n p))
+let podman_bin = List.map n_of_int (decode "/usr/bin/podman")
+
+let run_convert (kill_fixed : bool) (mount_nl : bool) (f : string list) : string =
+  match f with
+  | _is_user :: rest ->
+    let rec pairs = function p :: t :: r -> (to_str_lossy p, t) :: pairs r | _ -> [] in
+    let files = pairs rest in
+    (* files whose text is not UTF-8 are load errors of class Utf8, reported first like the driver does *)
+    let decoded = List.map (fun (p, t) -> (p, (try Some (to_str t) with Bad_utf8 -> None))) files in
+    let good = List.filter_map (fun (p, t) -> match t with Some t -> Some (p, t) | None -> None) decoded in
+    let (loads, convs) = M.process_files podman_bin exists_path kill_fixed mount_nl good in
+    let panic = ref false and skip = ref false in
+    let out = ref [] in
+    List.iter (fun (p, t) ->
+      match t with
+      | None -> out := !out @ ["L"; of_str p; "ERR"; "Utf8"; "-"]
+      | Some _ ->
+        (match List.assoc p loads with
+         | M.LOk (_, _) -> ()
+         | M.LParseErr -> out := !out @ ["L"; of_str p; "ERR"; "Unit"; "-"]
+         | M.LTypeErr -> out := !out @ ["L"; of_str p; "ERR"; "UnsupportedQuadletType"; "-"]
+         | M.LPanic -> panic := true)) decoded;
+    List.iter (fun (p, r) ->
+      match r with
+      | M.ROk (svc, sp) -> out := !out @ (["F"; of_str p; "OK"; of_str sp] @ dump_unit svc)
+      | M.RErr e -> out := !out @ ["F"; of_str p; "ERR"; err_class e; err_detail e]
+      | M.RPanic -> panic := true
+      | M.RSkip -> skip := true) convs;
+    if !panic then "PANIC" else if !skip then "SKIP" else ok !out
+  | [] -> "ERR\tbad-convert"
+
 let run (op : string) (f : string list) : string =
   match op, f with
+  | "convert", f -> run_convert false true f
+  | "convert_fixed", f -> run_convert true false f
+  | "is_url", [s] -> ok [tf (M.is_url (to_str s))]
   | "cleaned", [p] -> ok [of_str (M.cleaned (to_str p))]
   | "absolute_from", [p; r] -> (match M.absolute_from (to_str p) (to_str r) with Some x -> ok [of_str x] | None -> "CWD")
   | "absolute_from_unit", [p; u] -> (match M.absolute_from_unit (to_str p) (to_str u) with Some x -> ok [of_str x] | None -> "CWD")
